@@ -126,6 +126,10 @@ def run(P, R, tier):
     _c19.check_operator_alias(P, R, _oe.Own(P))
     from ..engines import opt as _opt
     R.floor("OPT default-field selections", _opt.check_function(P, R, "gmm:GMMStats.init_fields"), 3)
+    from ..engines import traps as _traps
+    _traps.check(P, R, ['gmm'], scope='gmm:(e_step|m_step|GMMStats\\.(__add__|__iadd__|init_fields|reset|resize|__init__|_\\w+)|GMMMachine\\.acc_stats)')
+    from ..engines import own as _oe2
+    _oe2.check_inplace_views(P, R, _oe2.Own(P), "gmm:e_step")
 
 
 EXPLANATION += " Added after the seeded rounds: (DTYPE.raw) no product / square of the samples is computed in the dtype of the input array; (OWN.iadd-alias) `a += b` stores no array of b into a; (OPT) default statistics fields are selected when the argument is absent, not when it is given; (COVER.fold / COVER.pairs) the M-step folds every block's statistics, and a neighbour-pairing reduction keeps the unpaired element."
